@@ -6,14 +6,14 @@
 // 2..8 pthreads merging random values, one pthread suspending/resuming, a handler that sometimes sleeps.
 // Recorded objects per round r: 3r = ds_pending_data, 3r+1 = dq_atomic_flags, 3r+2 = dq_state; user events carry obj 3r.
 // Output:
-//   R <round> <kind> <target> <nthreads> <wakeup_qos>
+//   R <round> <kind> <target> <nthreads> <wakeup_qos> <start_suspended>
 //   Q <round> reentered=<n> stuck1=<0|1> stuck2=<0|1> pending=<v> state=<v> handler_calls=<n> sentinel=<v>
 //   E ... (recorder dump)
 #include "internal.h"
 #include <inttypes.h>
 #include "dv_record.h"
 
-enum { DVX_SUSPEND = 110, DVX_RESUME = 111, DVX_CANCEL = 112 };
+enum { DVX_SUSPEND = 110, DVX_RESUME = 111, DVX_CANCEL = 112, DVX_READY = 113 };
 #define MAXT 8
 #define MAXR 20
 typedef struct {
@@ -137,9 +137,15 @@ int main(int argc, char **argv) {
 		dv_track(&s->ds->dq_atomic_flags, sizeof(s->ds->dq_atomic_flags), 3 * i + 1);
 		dv_track(&s->ds->dq_state, sizeof(uint64_t), 3 * i + 2);
 		int n = 2 + (int)((r >> 33) % (MAXT - 1));
-		printf("R %d %d %d %d %u\n", i, s->kind, s->target, n, (unsigned)_dispatch_queue_wakeup_qos(s->ds, 0));
 		int start_suspended = (int)((r >> 50) & 1); // merges racing the activation, or an active source
-		if (!start_suspended) dispatch_activate(s->ds);
+		printf("R %d %d %d %d %u %d\n", i, s->kind, s->target, n, (unsigned)_dispatch_queue_wakeup_qos(s->ds, 0), start_suspended);
+		if (!start_suspended) {
+			// an active source: activated, installed by the first invoke and back at rest before anybody touches it; the READY
+			// mark (a = dq_state, b = ds_pending_data at that moment) is where the global replay on Model/SrcLane.v starts
+			dispatch_activate(s->ds);
+			for (int w = 0; w < 20000 && !(s->ds->ds_is_installed && at_rest(s) && !(rd_state(s) >> 55)); w++) usleep(100);
+			dv_user(DVX_READY, 3 * i, rd_state(s), rd_pending(s));
+		}
 		pthread_t th[MAXT + 1]; targ_t ta[MAXT + 1];
 		pthread_barrier_init(&bar, NULL, (unsigned)n + 2);
 		for (int k = 0; k <= n; k++) {
